@@ -25,8 +25,8 @@ def check_property(pid, prop, tier, only=None, keep=False):
     results = []      # per obligation dicts
     notes = []
     all_h = prop.get("kani", [])
-    harnesses = [h for h in all_h if (tier == "thorough" or h.tier == "quick") and (not h.twin or tier == "thorough")]
-    twins = [h for h in all_h if h.twin and tier != "thorough"]
+    harnesses = [h for h in all_h if (tier == "thorough" or h.tier == "quick") and (not h.twin or tier == "thorough") and not h.search_only]
+    twins = [h for h in all_h if (h.twin and tier != "thorough") or h.search_only]
     units = [u for u in prop.get("verus", []) if tier == "thorough" or u.tier == "quick"]
     if only:
         keys = only.split(",")
@@ -53,6 +53,11 @@ def check_property(pid, prop, tier, only=None, keep=False):
                 if missing:
                     notes.append("harness files without a hook point in /repo: " + ", ".join(missing))
                 results += _run_kani(pid, prop, tree, harnesses, tier)
+            # counterexample searches that did not finish are not obligations
+            dropped = [r for r in results if r.get("_h") is not None and r["_h"].search_only and r["verdict"] == "undecided"]
+            for r in dropped:
+                notes.append(f"counterexample search {r['harness']} gave no answer within its time-out ({r['reason'][:80]})")
+            results = [r for r in results if r not in dropped]
             rc = _report(pid, prop, tier, seed, results, notes, t0, tree)
         finally:
             if not keep:
@@ -77,7 +82,7 @@ def _run_kani(pid, prop, tree, harnesses, tier):
             if r is None and info["compile_failed"]:
                 reason = "build failed: " + _first_error(info["log_tail"])
             entry = _entry(h, verdict, reason, failed, r)
-            if verdict == "undecided" and not info["compile_failed"]:
+            if verdict == "undecided" and not info["compile_failed"] and not h.search_only:
                 pending.append((h, entry))
             out.append(entry)
         # undecided because of a time-out / back-end crash: one sequential retry, alone on the
